@@ -31,9 +31,17 @@ import (
 
 const (
 	verifDir = "/verif"
-	repoDir  = "/repo"
 	goTool   = "go1.26.8"
 )
+
+// repoDir is /repo; SIMCHECK_REPO points the checks at a scratch worktree during sensitivity
+// experiments (the registered commands never set it).
+var repoDir = func() string {
+	if d := os.Getenv("SIMCHECK_REPO"); d != "" {
+		return d
+	}
+	return "/repo"
+}()
 
 // ---------------------------------------------------------------------------------------------
 // plan: which scenarios decide which property, and with what budget
